@@ -113,7 +113,8 @@ DecE(s, e) == [s EXCEPT !.cnt[e.o] = @ - 1]
 DestroyV(s, e) ==
   CASE e.o \in s.dead -> <<"C02", "value destroyed twice">>
     [] s.cnt[e.o] # 0 -> <<"HARNESS", "destroy at non-zero count">>
-    [] Referenced(s, e.o) -> <<"C01", "value destroyed while a handle, guard, cache or container still refers to it">>
+    [] \E g \in DOMAIN s.greg : s.greg[g] = e.o -> <<"C01+C02+C10", "value destroyed while a guard still denotes it (released once too often)">>
+    [] Referenced(s, e.o) -> <<"C01+C02", "value destroyed while a handle, cache or container still refers to it (released once too often)">>
     [] OTHER -> OK
 DestroyE(s, e) == [s EXCEPT !.dead = @ \cup {e.o}]
 
@@ -240,7 +241,7 @@ DerefV(s, e) ==
   CASE e.k \in {"g", "h"} /\ held = NoVal -> <<"HARNESS", "deref of an empty register">>
     [] e.k \in {"g", "h"} /\ held # e.o
          -> <<(IF e.k = "g" THEN "C10" ELSE "C01"), "a guard or handle dereferences to another value than the one it was created with">>
-    [] ~e.alive \/ e.o \in s.dead -> <<"C01", "dereference of a destroyed value">>
+    [] ~e.alive \/ e.o \in s.dead -> <<(IF e.k = "g" THEN "C01+C10" ELSE "C01"), "dereference of a destroyed value">>
     [] e.tag # e.o -> <<"C17", "projection of a value shows a field of another value (torn snapshot)">>
     [] OTHER -> OK
 
